@@ -364,7 +364,7 @@ Theorem C07_schema_matches_source :
                     | Some fs => if list_eq_dec N.eq_dec (map field_code fs) (snd x) then true else false
                     | None => true end) type_scans = true
   /\ forallb (fun rt => match schema rt with Some _ => existsb (fun x => fst x =? rt) type_scans | None => false end)
-       [1; 2; 3; 4; 5; 6; 7; 8; 9; 12; 13; 14; 15; 16; 17; 33; 35; 39; 44; 51; 52; 61] = true.
+       [1; 2; 3; 4; 5; 6; 7; 8; 9; 12; 13; 14; 15; 16; 17; 33; 35; 39; 44; 47; 50; 51; 52; 61] = true.
 Proof. exact schema_matches_source. Qed.
 Print Assumptions C07_schema_matches_source.
 
@@ -534,3 +534,17 @@ Theorem C07_rtype_bitmap_loop_protocol : forall fuel s, PInv s -> (length (buf s
   good PInv (while_ascii fuel s).
 Proof. exact while_ascii_good. Qed.
 Print Assumptions C07_rtype_bitmap_loop_protocol.
+
+Theorem C07_scan_svcb_octets_protocol : forall s, PInv s ->
+  good (fun rs => PInv (snd rs) /\ (length (rest (snd rs)) < length (rest s))%nat) (scan_svcb_octets s).
+Proof. exact scan_svcb_octets_good. Qed.
+Print Assumptions C07_scan_svcb_octets_protocol.
+
+Theorem C07_all_zone_types_resolved : type_scans_unresolved = [250].
+Proof. vm_compute. reflexivity. Qed.
+Print Assumptions C07_all_zone_types_resolved.
+
+Theorem C07_scan_bitmap_protocol : forall fuel s bs, PInv s -> (length (buf s) - start s < fuel)%nat ->
+  good (fun rs => PInv (snd rs)) (scan_bitmap fuel s bs).
+Proof. exact scan_bitmap_good. Qed.
+Print Assumptions C07_scan_bitmap_protocol.
